@@ -201,11 +201,11 @@ func init() {
 					}
 					ties := 0
 					for _, k2 := range t.Root.SortedKeys() {
-						if editDistance(near, k2) == 1 {
+						if len(k2) >= 2 && editDistance(near, k2) == 1 {
 							ties++
 						}
 					}
-					if ties >= 2 {
+					if ties >= 2 && len(near) >= 2 {
 						add("unknown-near-miss", &DriverReq{Prog: p, Kind: "parse", Argv: []string{"--" + near}, Dispatch: true})
 						nearDone = true
 						break
